@@ -123,7 +123,13 @@ func (w *Worktree) status(cfg *config.Config, ss StatusStrategy, commit plumbing
 			fs.Worktree = Deleted
 		case merkletrie.Insert:
 			fs.Worktree = Untracked
-			fs.Staging = Untracked
+			// A path removed from the index while its file is kept (git rm
+			// --cached) is a staged deletion and an untracked file at once;
+			// git status lists it twice ("D  p" and "?? p"). Keep the staged
+			// half rather than overwriting it.
+			if fs.Staging != Deleted {
+				fs.Staging = Untracked
+			}
 		case merkletrie.Modify:
 			fs.Worktree = Modified
 		}
